@@ -1,7 +1,6 @@
 """Abstract connection module."""
 import asyncio
 import logging
-import sys
 import time
 from enum import Enum, IntEnum
 
@@ -259,6 +258,16 @@ class AsyncFIXConnection:
                 " order to get valid response handling"
             )
 
+        await self._send_encoded(msg, journal=True)
+
+    async def _send_encoded(self, msg: FIXMessage, journal: bool):
+        """Encodes and writes message to the socket.
+
+        Args:
+            msg: fix message
+            journal: False - for retransmissions / gap fills of already sent
+                     MsgSeqNums (journal keeps the original message)
+        """
         encoded_msg = self._codec.encode(msg, self._session).encode("utf-8")
 
         msg_raw = encoded_msg.replace(b"\x01", b"|")
@@ -270,9 +279,10 @@ class AsyncFIXConnection:
         self._socket_writer.write(encoded_msg)
         await self._socket_writer.drain()
 
-        self._journaler.persist_msg(
-            encoded_msg, self._session, MessageDirection.OUTBOUND
-        )
+        if journal:
+            self._journaler.persist_msg(
+                encoded_msg, self._session, MessageDirection.OUTBOUND
+            )
 
     async def send_test_req(self):
         """Sends TestRequest(35=1) and sets TestReqID for expected response from peer.
@@ -596,19 +606,13 @@ class AsyncFIXConnection:
 
         begin_seq_no = int(resend_msg[FTag.BeginSeqNo])
         end_seq_no = int(resend_msg[FTag.EndSeqNo])
-        if end_seq_no == 0:
-            end_seq_no = sys.maxsize
+
+        # Only already sent MsgSeqNums can be resent, the outgoing MsgSeqNum counter
+        #   and the journal (original messages) are left untouched
+        last_seq_no = self._session.next_num_out - 1
+        if end_seq_no == 0 or end_seq_no > last_seq_no:
+            end_seq_no = last_seq_no
         self.log.info("Received resent request from %s to %s", begin_seq_no, end_seq_no)
-        journal_replay_msgs = self._journaler.recover_messages(
-            self._session, MessageDirection.OUTBOUND, begin_seq_no, end_seq_no
-        )
-
-        # Remember next_num_out
-        current_next_num_out = self._session.next_num_out
-
-        self._journaler.set_seq_num(self._session, next_num_out=begin_seq_no)
-        gap_fill_begin = int(begin_seq_no)
-        gap_fill_end = int(begin_seq_no)
 
         noreply_msgs = {
             FMsg.LOGON,
@@ -619,26 +623,38 @@ class AsyncFIXConnection:
             FMsg.SEQUENCERESET,
         }
 
-        for enc_msg in journal_replay_msgs:
-            replay_msg, _, _ = self._codec.decode(enc_msg, silent=False)
-            msg_seq_num = int(replay_msg[FTag.MsgSeqNum])
+        if begin_seq_no < 1 or begin_seq_no > end_seq_no:
+            self.log.warning(
+                f"Nothing to resend for BeginSeqNo={resend_msg[FTag.BeginSeqNo]}"
+                f" EndSeqNo={resend_msg[FTag.EndSeqNo]}, last sent {last_seq_no}"
+            )
+        else:
+            journal_replay_msgs = self._journaler.recover_messages(
+                self._session, MessageDirection.OUTBOUND, begin_seq_no, end_seq_no
+            )
+            gap_fill_begin = begin_seq_no
 
-            is_sess_msg = replay_msg[FTag.MsgType] in noreply_msgs
-            if is_sess_msg or not await self.should_replay(replay_msg):
-                gap_fill_end = msg_seq_num + 1
-            else:
-                if gap_fill_begin < gap_fill_end:
-                    # we need to send a gap fill message
-                    gap_fill_msg = FIXMessage(FMsg.SEQUENCERESET)
-                    gap_fill_msg[FTag.GapFillFlag] = "Y"
-                    gap_fill_msg[FTag.MsgSeqNum] = gap_fill_begin
-                    gap_fill_msg[FTag.NewSeqNo] = str(gap_fill_end)
-                    # breakpoint()
-                    await self.send_msg(gap_fill_msg)
+            for enc_msg in journal_replay_msgs:
+                replay_msg, _, _ = self._codec.decode(enc_msg, silent=False)
+                msg_seq_num = int(replay_msg[FTag.MsgSeqNum])
+
+                is_sess_msg = replay_msg[FTag.MsgType] in noreply_msgs
+                if (
+                    is_sess_msg
+                    or msg_seq_num < gap_fill_begin
+                    or msg_seq_num > end_seq_no
+                    or not await self.should_replay(replay_msg)
+                ):
+                    # will be covered by gap fill
+                    continue
+
+                if gap_fill_begin < msg_seq_num:
+                    await self._send_gap_fill(gap_fill_begin, msg_seq_num)
 
                 # and then resent the replayMsg
-                replay_msg[FTag.PossDupFlag] = "Y"
-                replay_msg[FTag.OrigSendingTime] = replay_msg[FTag.SendingTime]
+                replay_msg.set(FTag.PossDupFlag, "Y", replace=True)
+                if FTag.OrigSendingTime not in replay_msg:
+                    replay_msg[FTag.OrigSendingTime] = replay_msg[FTag.SendingTime]
                 del replay_msg[FTag.MsgType]
                 del replay_msg[FTag.BeginString]
                 del replay_msg[FTag.BodyLength]
@@ -646,30 +662,24 @@ class AsyncFIXConnection:
                 del replay_msg[FTag.SenderCompID]
                 del replay_msg[FTag.TargetCompID]
                 del replay_msg[FTag.CheckSum]
-                await self.send_msg(replay_msg)
+                await self._send_encoded(replay_msg, journal=False)
 
                 gap_fill_begin = msg_seq_num + 1
 
-        if gap_fill_end < gap_fill_begin:
-            self.log.warning(
-                "Journal MsgSeqNum not reflecting last"
-                f" next_num_out={current_next_num_out}, forcing reset."
-            )
-
-        assert gap_fill_end <= current_next_num_out, "Unexpected end for gap"
-
-        # Remainder not available in some reason
-        if gap_fill_begin < current_next_num_out:
-            gap_fill_msg = FIXMessage(FMsg.SEQUENCERESET)
-            gap_fill_msg[FTag.GapFillFlag] = "Y"
-            gap_fill_msg[FTag.MsgSeqNum] = gap_fill_begin
-            gap_fill_msg[FTag.NewSeqNo] = current_next_num_out
-            await self.send_msg(gap_fill_msg)
-
-        self._journaler.set_seq_num(self._session, next_num_out=current_next_num_out)
+            # Remainder is not available or not replayable
+            if gap_fill_begin <= end_seq_no:
+                await self._send_gap_fill(gap_fill_begin, end_seq_no + 1)
 
         if self._connection_state != ConnectionState.RESENDREQ_AWAITING:
             await self._state_set(ConnectionState.ACTIVE)
+
+    async def _send_gap_fill(self, msg_seq_num: int, new_seq_no: int):
+        """Sends SequenceReset(35=4)-GapFill for already sent MsgSeqNums."""
+        gap_fill_msg = FIXMessage(FMsg.SEQUENCERESET)
+        gap_fill_msg[FTag.GapFillFlag] = "Y"
+        gap_fill_msg[FTag.MsgSeqNum] = msg_seq_num
+        gap_fill_msg[FTag.NewSeqNo] = str(new_seq_no)
+        await self._send_encoded(gap_fill_msg, journal=False)
 
     async def _process_seqreset(self, seqreset_msg: FIXMessage):
         """Handles SequenceReset(35=4) message.
